@@ -236,7 +236,7 @@ def tasks(tier):
             kw = randspec.make(i)
             spec = Spec(**kw)
             spec.label = label
-            have = [a for a in ("x", "u", "z", "t", "p", "pc", "pcp", "v", "vc", "vcp", "T", "t0") if a not in ("u", "z") or kw["controls" if a == "u" else "algebraics"]]
+            have = [a for a in ("x", "u", "z", "t", "p", "pc", "pcp", "v", "vc", "vcp", "T", "t0") if a not in ("u", "z") or kw["controls" if a == "u" else "algebraics"]] + (["w"] if kw.get("hoc") else [])
             between = [a for a in have if a != "z" or (kw.get("scheme") == "radau" and kw.get("degree", 2) <= 2)]
             grids = ["control", "control-", "integrator", "integrator-"]
             sample_check(spec, [(E("sa", 2, tuple(between)), None)], grids, label)
